@@ -3,12 +3,13 @@
 I : Lean spec inflater  vs Go reference inflater vs compress/flate (valid, faulty, truncated, flipped, dictionary streams)
 W : Lean Writer control model with replayed leaves vs the implementation, lock-step counters/results/destination calls
 R : Lean Reader control model (bufio + step/Read bookkeeping) with a replayed decoder vs the implementation, lock-step
+H : Lean control model of the Huffman-only compressor (level -2) with a replayed block encoder vs the implementation, lock-step
 G : Lean leaf-contract check `checkGen` (proved to imply Sound.gen and the C19 window discipline for the call) applied to
     recorded match-finder calls: buffer given, tokens appended; at EVERY acceleration level (Go and assembly finders)
 K : Lean checksum / gzip / zlib header and trailer definitions vs hash/crc32, hash/adler32 and fastgo's container bytes
 """
 KINDS = {
-    "C01": ["I", "W", "G"],
+    "C01": ["I", "W", "H", "G"],
     "C02": ["I", "R"],
     "C03": ["I", "R"],
     "C04": ["R"],
@@ -17,7 +18,7 @@ KINDS = {
     "C07": ["K"],
     "C08": ["K"],
     "C09": ["W"],
-    "C10": ["I", "W", "G"],
+    "C10": ["I", "W", "H", "G"],
     "C11": ["R"],
     "C12": ["W"],
     "C13": ["R"],
@@ -26,7 +27,7 @@ KINDS = {
     "C16": ["W"],
     "C18": ["R", "W", "G"],
     "C19": ["I", "W", "G"],
-    "C20": ["W", "G"],
+    "C20": ["W", "H", "G"],
 }
-COUNT = {"I": (300, 3000), "W": (600, 6000), "R": (400, 4000), "K": (600, 6000), "G": (600, 6000)}
+COUNT = {"I": (300, 3000), "W": (600, 6000), "R": (400, 4000), "K": (600, 6000), "G": (600, 6000), "H": (400, 4000)}
 PER_LEVEL = {"G"}
